@@ -155,12 +155,12 @@ func (g *exprGen) atom(t ty) string {
 		if g.r.Intn(2) == 0 {
 			return g.pick(envVars[tList]...)
 		}
-		return g.pick("[]", "[1, 2, 3]", "['a', 'b']", "[1]", "[[1], [2, 3]]", "[1.5, 'x', true, null]")
+		return g.pick("[]", "[1, 2, 3]", "['a', 'b']", "[1]", "[[1], [2, 3]]", "[1.5, 'x', true, null]", "[1, 2,]", "[7,]")
 	case tMap:
 		if g.r.Intn(2) == 0 {
 			return g.pick(envVars[tMap]...)
 		}
-		return g.pick("[:]", "['a': 1]", "['k': 'v', 'j': 2]", "['z': [1, 2], 'y': ['q': 0]]")
+		return g.pick("[:]", "['a': 1]", "['k': 'v', 'j': 2]", "['z': [1, 2], 'y': ['q': 0]]", "['a': 1,]", "['k': 'v', 'j': 2, ]")
 	}
 	return "null"
 }
@@ -404,6 +404,9 @@ func (g *exprGen) bin(depth int, ta ty, op string, tb ty) string {
 func (g *exprGen) tern(depth int, t ty) string {
 	c := g.operand(depth, tAny, 0)
 	a := g.operand(depth, t, 0)
+	if depth > 1 && g.r.Intn(6) == 0 {
+		a = g.tern(depth-1, t) // a ternary in the then-branch needs no parentheses
+	}
 	b := g.expr(depth, t)
 	sp := g.pick(" ", " ", "")
 	if sp == "" && (strings.HasPrefix(a, ".") || strings.HasPrefix(a, "[") || strings.HasPrefix(a, ":")) {
